@@ -4,7 +4,8 @@
  * the "compiles when used" half of C17.
  * KEYING: 0 default constructor          1 key constructor
  *         2 default ctor + set_key(key, full length)     3 set_key(key, 0)  (all-zero key)
- *         4 set_key(key, wrong length) after set_key(full)   5 (ISAP) saved key via set_key(saved, 80) */
+ *         4 set_key(key, wrong length) after set_key(full)   5 (ISAP) saved key via set_key(saved, 80)
+ *         6 set_key(full) then set_key(p, 0)                  7 key constructor then set_key(p, 0) */
 #include <ascon/aead.h>
 #include <ascon/aead-masked.h>
 #include <ascon/siv.h>
@@ -31,12 +32,14 @@ static int run(int keying, int dec, const unsigned char *key, size_t kl, const u
     C *obj;
     int r1;
     *skr = -1;
-    if (keying == 1) obj = ctor_traits<C>::with_key(mem, key, kl);
+    if (keying == 1 || keying == 7) obj = ctor_traits<C>::with_key(mem, key, kl);
     else obj = new (mem) C();
     if (keying == 2) *skr = obj->set_key(key, kl);
     if (keying == 3) *skr = obj->set_key(alt, 0);
     if (keying == 4) { obj->set_key(key, kl); *skr = obj->set_key(alt, altlen); }
     if (keying == 5) *skr = obj->set_key(alt, altlen);
+    if (keying == 6) { obj->set_key(key, kl); *skr = obj->set_key(alt, 0); }   /* good key first, then the zero-length form */
+    if (keying == 7) *skr = obj->set_key(alt, 0);                              /* key constructor was used (keying 1 path) below */
     if (use_counter) obj->set_counter(counter); else obj->set_nonce(nonce, nlen);
     sizes[0] = obj->key_size(); sizes[1] = obj->tag_size(); sizes[2] = obj->nonce_size();
     if (dec) r1 = obj->decrypt(out1, in, len, ad, adlen);
